@@ -328,6 +328,41 @@ def run_family(ctx, prop):
         l2n = len(hs3)
         for k in ("lines", "tlc_states"):
             done[k] += done3[k]
+    # 3c/4c. a few of the simulated histories through the BUILT DAEMON (L3): both FIFOs fed concurrently, the
+    # output file judged by the same predicates (evaluated on the final record only)
+    l3n = 0
+    if prop in ("C01", "C02", "C04"):
+        import random
+        from checks import pipeline
+        l3h = [h for h in strip_for_l2(simh) if not any(c["k"] == "badlogin" or (c["k"] == "audit" and c["typ"] == "LOGIN"
+                                                                              and c["pid"] == 0) for c in h)]
+        l3h = l3h[: (6 if ctx.quick else 40)]
+        hp3 = ctx.path("hists-l3.jsonl")
+        write_hists(hp3, l3h)
+        d3 = ctx.path("l3")
+        os.makedirs(d3, exist_ok=True)
+        l3bin = ctx.go_build("./cmd/l3")
+        g = json.loads(ctx.run([l3bin, "-mode", "gen", "-in", hp3, "-dir", d3, "-seed", str(ctx.seed)]).stdout.strip().splitlines()[-1])
+        daemon = pipeline.build_daemon(ctx)
+        rnd = random.Random(ctx.seed)
+        okr = sum(1 for i in range(g["scripts"]) if pipeline.run_script(daemon, d3, i, False, rnd))
+        if okr < g["scripts"] * 0.7:
+            raise Infra("only %d of %d daemon runs could be carried out" % (okr, g["scripts"]))
+        tp3 = ctx.path("trace-l3.ndjson")
+        ctx.run([l3bin, "-mode", "analyse", "-in", hp3, "-dir", d3, "-out", tp3, "-seed", str(ctx.seed)])
+        hs4 = split_trace(tp3)
+        base = len(allh)
+        for i, hh in enumerate(hs4):
+            r = json.loads(hh[0])
+            r["h"] = base + i
+            hh[0] = json.dumps(r, separators=(",", ":")) + "\n"
+        bad4, _, done4 = validate(ctx, hs4, "l3", cfg="TrackerTraceL2.cfg")
+        # without strace the write(2) view is absent: WholeLines is C10's business
+        bad += [b for b in bad4 if b[2] != "WholeLines"]
+        allh = allh + hs4
+        l3n = len(hs4)
+        for k in ("lines", "tlc_states"):
+            done[k] += done4[k]
     # verdicts
     mine = [b for b in bad if b[2] in mons]
     other = sorted({b[2] for b in bad if b[2] not in mons})
@@ -337,7 +372,11 @@ def run_family(ctx, prop):
     for what, idxs in byprop.items():
         idxs = sorted(set(idxs), key=lambda i: len(allh[i]))
         recs = hist_of(allh[idxs[0]])
-        level = "Auditd.Read (L2: real parser/reassembler)" if idxs[0] >= len(hs) + len(hs2) else "sessionTracker API (L1)"
+        level = "sessionTracker API (L1)"
+        if idxs[0] >= len(hs) + len(hs2):
+            level = "Auditd.Read (L2: real parser/reassembler)"
+        if l3n and idxs[0] >= len(allh) - l3n:
+            level = "built daemon (L3: FIFOs, output file)"
         ctx.violation(what, "%s violated on the real code at %s in %d recorded histories; shortest: %s"
                       % (what, level, len(idxs), describe(recs)),
                       {"kind": "history", "level": level, "monitor": what, "history": [
@@ -373,7 +412,7 @@ def run_family(ctx, prop):
         "traces_validated_against_impl": len(allh),
         "samples": [describe(hist_of(allh[i])) for i in (0, len(hs) // 2, len(hs) - 1, len(allh) - 1)][:4],
         "edge_cover_histories": len(hs), "edge_cover_shapes": ex["distinct"],
-        "simulated_histories": len(hs2), "l2_histories_through_Auditd_Read": l2n,
+        "simulated_histories": len(hs2), "l2_histories_through_Auditd_Read": l2n, "l3_daemon_runs": l3n,
         "l2_audit_log_lines": (l2stats or {}).get("lines", 0),
         "calls_replayed": s1["calls"] + s2["calls"] + (l2stats or {}).get("calls", 0),
         "events_emitted_by_impl": s1["outs"] + s2["outs"],
